@@ -67,15 +67,6 @@ theorem C01_sum_Cp (reg : List S) (lib : Library N S) (gs : List (N × Rat)) (s 
     e.CpoR T = .ok ((gs.map fun g => g.2 * h g.1).sum) :=
   estimate_sum (·.cp T) reg lib gs s e he h hv
 
-/-- without the elemental term, `get_SoR` is the plain weighted sum -/
-theorem SoR_plain (sel : Nat → Option Rat) (e : Estimator) (T : Rat) (flag : PyFlag) (hf : flag.truthy = false) :
-    e.SoR sel T flag = wsum (·.sor T) e.correlations := by
-  unfold Estimator.SoR
-  simp only [hf, Bool.false_eq_true, if_false]
-  cases wsum (fun x => x.sor T) e.correlations with
-  | error err => rfl
-  | ok v => simp
-
 /-- **T1 for S/R** (entropy not taken relative to the elements: any falsy `S_elements`). -/
 theorem C01_sum_S (reg : List S) (lib : Library N S) (gs : List (N × Rat)) (s : S) (e : Estimator) (T : Rat)
     (sel : Nat → Option Rat) (flag : PyFlag) (hf : flag.truthy = false)
@@ -84,13 +75,6 @@ theorem C01_sum_S (reg : List S) (lib : Library N S) (gs : List (N × Rat)) (s :
     e.SoR sel T flag = .ok ((gs.map fun g => g.2 * h g.1).sum) := by
   rw [SoR_plain sel e T flag hf]
   exact estimate_sum (·.sor T) reg lib gs s e he h hv
-
-theorem sum_sub_sum (gs : List (N × Rat)) (a b : N → Rat) :
-    (gs.map fun g => g.2 * a g.1).sum - (gs.map fun g => g.2 * b g.1).sum
-      = (gs.map fun g => g.2 * (a g.1 - b g.1)).sum := by
-  induction gs with
-  | nil => simp
-  | cons g rest ih => simp only [List.map_cons, List.sum_cons]; rw [← ih]; ring
 
 /-- **T1 for G/RT**: `get_GoRT(T)` of the estimate is `Σ n·(h_d(T) − s_d(T))`, the weighted sum of the
 constituents' own `G/RT`. -/
@@ -234,6 +218,158 @@ theorem C01_lookup_unknown (lib : Library N S) (s : S) (g : N) (hg : ∀ p ∈ l
     simpa using (hg p hp).symm
   simp [corrOf, Library.getItem, this]
 
+/-- **T4 (order, outcome)** Whether `Estimate` succeeds does not depend on the order of the mapping. -/
+theorem C01_perm_outcome (reg : List S) (lib : Library N S) {gs gs' : List (N × Rat)} (s : S) (hp : gs.Perm gs') :
+    (∃ e, estimate reg lib gs s = .ok e) ↔ (∃ e', estimate reg lib gs' s = .ok e') := by
+  constructor
+  · rintro ⟨e, he⟩; obtain ⟨e', he', _⟩ := estimate_perm reg lib s e hp he; exact ⟨e', he'⟩
+  · rintro ⟨e, he⟩; obtain ⟨e', he', _⟩ := estimate_perm reg lib s e hp.symm he; exact ⟨e', he'⟩
+
+/-- the terms of two successful estimates of reordered mappings are reorderings of each other -/
+theorem perm_terms (reg : List S) (lib : Library N S) {gs gs' : List (N × Rat)} (s : S) (e e' : Estimator)
+    (hp : gs.Perm gs') (he : estimate reg lib gs s = .ok e) (he' : estimate reg lib gs' s = .ok e') :
+    e'.correlations.Perm e.correlations ∧ e'.name = e.name ∧ e'.range = e.range := by
+  obtain ⟨e'', he'', h⟩ := estimate_perm reg lib s e hp he
+  rw [he'] at he''; cases he''; exact h
+
+/-- **T4 (order, Cp/R)** -/
+theorem C01_perm_Cp (reg : List S) (lib : Library N S) {gs gs' : List (N × Rat)} (s : S) (e e' : Estimator) (T v : Rat)
+    (hp : gs.Perm gs') (he : estimate reg lib gs s = .ok e) (he' : estimate reg lib gs' s = .ok e') :
+    e.CpoR T = .ok v ↔ e'.CpoR T = .ok v :=
+  (wsum_perm _ (perm_terms reg lib s e e' hp he he').1 v).symm
+
+/-- **T4 (order, H/RT)** The order of the mapping does not change `get_HoRT`. -/
+theorem C01_perm_H (reg : List S) (lib : Library N S) {gs gs' : List (N × Rat)} (s : S) (e e' : Estimator) (T v : Rat)
+    (hp : gs.Perm gs') (he : estimate reg lib gs s = .ok e) (he' : estimate reg lib gs' s = .ok e') :
+    e.HoRT T = .ok v ↔ e'.HoRT T = .ok v :=
+  (wsum_perm _ (perm_terms reg lib s e e' hp he he').1 v).symm
+
+/-- **T4 (order, S/R)**, with or without the elemental term. -/
+theorem C01_perm_S (reg : List S) (lib : Library N S) {gs gs' : List (N × Rat)} (s : S) (e e' : Estimator) (T v : Rat)
+    (sel : Nat → Option Rat) (flag : PyFlag)
+    (hp : gs.Perm gs') (he : estimate reg lib gs s = .ok e) (he' : estimate reg lib gs' s = .ok e') :
+    e.SoR sel T flag = .ok v ↔ e'.SoR sel T flag = .ok v := by
+  obtain ⟨h1, h2, _⟩ := perm_terms reg lib s e e' hp he he'
+  rw [SoR_ok_iff, SoR_ok_iff, h2]
+  simp only [wsum_perm _ h1]
+
+/-- **T4 (order, G/RT)** -/
+theorem C01_perm_G (reg : List S) (lib : Library N S) {gs gs' : List (N × Rat)} (s : S) (e e' : Estimator) (T v : Rat)
+    (sel : Nat → Option Rat) (flag : PyFlag)
+    (hp : gs.Perm gs') (he : estimate reg lib gs s = .ok e) (he' : estimate reg lib gs' s = .ok e') :
+    (e.toND sel).GoRT T flag = .ok v ↔ (e'.toND sel).GoRT T flag = .ok v := by
+  rw [GoRT_ok_iff, GoRT_ok_iff]
+  simp only [Estimator.toND, C01_perm_H reg lib s e e' T _ hp he he', C01_perm_S reg lib s e e' T _ sel flag hp he he']
+
+/-- **T4 (linearity: splitting the mapping)** For any datum, the estimate of `g₁ ++ g₂` has the value `v` iff the
+estimates of `g₁` and `g₂` have values adding up to `v`: `est(g₁ ++ g₂) = est g₁ + est g₂`. -/
+theorem C01_append (get : Corr → Val) (reg : List S) (lib : Library N S) (g1 g2 : List (N × Rat)) (s : S)
+    (e e1 e2 : Estimator) (he : estimate reg lib (g1 ++ g2) s = .ok e)
+    (he1 : estimate reg lib g1 s = .ok e1) (he2 : estimate reg lib g2 s = .ok e2) (v : Rat) :
+    wsum get e.correlations = .ok v ↔
+      ∃ v1 v2, wsum get e1.correlations = .ok v1 ∧ wsum get e2.correlations = .ok v2 ∧ v = v1 + v2 := by
+  simp only [C01_value_iff get reg lib _ s _ he, C01_value_iff get reg lib _ s _ he1, C01_value_iff get reg lib _ s _ he2,
+    specEstimate_append, List.mem_append]
+  constructor
+  · rintro ⟨h, rfl⟩
+    exact ⟨_, _, ⟨fun g hg => h g (Or.inl hg), rfl⟩, ⟨fun g hg => h g (Or.inr hg), rfl⟩, rfl⟩
+  · rintro ⟨v1, v2, ⟨h1, rfl⟩, ⟨h2, rfl⟩, rfl⟩
+    exact ⟨fun g hg => hg.elim (h1 g) (h2 g), rfl⟩
+
+/-- **T4 (linearity: scaling)** Multiplying every count by `k` multiplies every property by `k`. -/
+theorem C01_scale (get : Corr → Val) (reg : List S) (lib : Library N S) (gs : List (N × Rat)) (s : S) (k : Rat)
+    (e e' : Estimator) (he : estimate reg lib gs s = .ok e)
+    (he' : estimate reg lib (gs.map fun g => (g.1, k * g.2)) s = .ok e') (v : Rat)
+    (hv : wsum get e.correlations = .ok v) : wsum get e'.correlations = .ok (k * v) := by
+  rw [C01_value_iff get reg lib _ s _ he] at hv
+  rw [C01_value_iff get reg lib _ s _ he']
+  obtain ⟨h, rfl⟩ := hv
+  refine ⟨?_, ?_⟩
+  · intro g hg
+    obtain ⟨g0, hg0, rfl⟩ := List.mem_map.mp hg
+    exact h g0 hg0
+  · exact (specEstimate_scale lib s get k gs).symm
+
+/-- **T4 (merging counts)** Giving a descriptor the count `n₁ + n₂` is the same as listing it twice with `n₁`, `n₂`. -/
+theorem C01_merge_counts (get : Corr → Val) (reg : List S) (lib : Library N S) (d : N) (n1 n2 : Rat)
+    (rest : List (N × Rat)) (s : S) (e e' : Estimator)
+    (he : estimate reg lib ((d, n1) :: (d, n2) :: rest) s = .ok e)
+    (he' : estimate reg lib ((d, n1 + n2) :: rest) s = .ok e') (v : Rat) :
+    wsum get e.correlations = .ok v ↔ wsum get e'.correlations = .ok v := by
+  rw [C01_value_iff get reg lib _ s _ he, C01_value_iff get reg lib _ s _ he']
+  have hs : specEstimate lib s get ((d, n1) :: (d, n2) :: rest) = specEstimate lib s get ((d, n1 + n2) :: rest) := by
+    simp only [specEstimate, List.map_cons, List.sum_cons]; ring
+  rw [hs]
+  simp only [List.mem_cons, forall_eq_or_imp]
+  tauto
+
+/-- **Zero counts** A descriptor with count 0 adds nothing to any value, but it still has to have the datum. -/
+theorem C01_zero_count (get : Corr → Val) (reg : List S) (lib : Library N S) (d : N) (rest : List (N × Rat)) (s : S)
+    (e e' : Estimator) (he : estimate reg lib ((d, 0) :: rest) s = .ok e) (he' : estimate reg lib rest s = .ok e') (v : Rat) :
+    wsum get e.correlations = .ok v ↔ HasDatum lib s get d ∧ wsum get e'.correlations = .ok v := by
+  rw [C01_value_iff get reg lib _ s _ he, C01_value_iff get reg lib _ s _ he']
+  have hs : specEstimate lib s get ((d, 0) :: rest) = specEstimate lib s get rest := by
+    simp [specEstimate]
+  rw [hs]
+  simp only [List.mem_cons, forall_eq_or_imp]
+  tauto
+
+/-- **Range** The range of a successful estimate is a non-empty interval inside the range of every constituent
+that declares one (and is absent exactly when no constituent declares one). -/
+theorem C01_range_inter (reg : List S) (lib : Library N S) (gs : List (N × Rat)) (s : S) (e : Estimator)
+    (he : estimate reg lib gs s = .ok e) :
+    match e.range with
+    | none => ∀ c ∈ e.correlations, c.1.range = none
+    | some (lo, hi) => lo ≤ hi ∧ ∀ c ∈ e.correlations, ∀ a b, c.1.range = some (a, b) → a ≤ lo ∧ hi ≤ b := by
+  obtain ⟨_, _, hc⟩ := (estimate_ok_iff reg lib gs s e).mp he
+  obtain ⟨cs, uq, _, _, hf⟩ := (construct_ok_iff lib s gs e).mp hc
+  have spec := foldRange_spec cs none
+  unfold finish at hf
+  unfold commonRange at hf
+  split at hf
+  · rename_i h0
+    cases hf
+    rw [h0] at spec
+    exact spec.2
+  · rename_i lo hi h0
+    split at hf
+    · rename_i hle
+      cases hf
+      rw [h0] at spec
+      exact ⟨hle, spec.2⟩
+    · cases hf
+
 end
+
+/-! ### non-vacuity: a concrete library and mappings meeting the hypotheses -/
+namespace Ex01
+
+def cA : Corr := ⟨fun _ => .ok 2, fun T => .ok (T / 100), fun _ => .ok (1/2), some (100, 1000)⟩
+def cB : Corr := ⟨fun _ => .error .incomplete, fun _ => .ok (-3), fun _ => .error .incomplete, some (200, 1500)⟩
+def cC : Corr := ⟨fun _ => .ok 1, fun _ => .ok 7, fun _ => .ok 1, some (1200, 1300)⟩
+/-- descriptors 1, 2, 4 carry property set 0; descriptor 3 is listed without it; 5 is unknown -/
+def lib : Library Nat Nat := ⟨[(1, [(0, cA)]), (2, [(0, cB)]), (3, [(9, cA)]), (4, [(0, cC)])], none, none⟩
+
+def okVal (r : Val) (v : Rat) : Bool := match r with | .ok w => w == v | .error _ => false
+def errVal (r : Val) (e : Err) : Bool := match r with | .ok _ => false | .error e' => e' == e
+def chk (gs : List (Nat × Rat)) (f : Estimator → Bool) : Bool :=
+  match estimate [0] lib gs 0 with | .ok e => f e | .error _ => false
+def errIs (gs : List (Nat × Rat)) (s : Nat) (err : EstErr Nat) : Bool :=
+  match estimate [0] lib gs s with | .ok _ => false | .error e => e == err
+
+/-- fractional, negative and zero counts: H/RT(300) = 2·3 + (−1/2)·(−3) + 0·3 = 15/2 -/
+example : chk [(1, 2), (2, -1/2)] (fun e => okVal (e.HoRT 300) (15/2)) = true := by decide +kernel
+/-- Cp/R: the second descriptor has no heat-capacity datum → incomplete-data error, although H/RT exists -/
+example : chk [(1, 2), (2, -1/2)] (fun e => errVal (e.CpoR 300) .incomplete) = true := by decide +kernel
+example : chk [(1, 2), (1, 3)] (fun e => okVal (e.HoRT 300) 15) = true := by decide +kernel
+example : chk [(1, 0), (2, 1)] (fun e => okVal (e.HoRT 300) (-3)) = true := by decide +kernel
+/-- range: intersection [200, 1000] -/
+example : chk [(1, 2), (2, -1/2)] (fun e => e.range == some (200, 1000)) = true := by decide +kernel
+/-- missing data: exactly the descriptors without the set, in mapping order; an unregistered set; disjoint ranges -/
+example : errIs [(5, 1), (1, 2), (3, 0)] 0 (.missing [5, 3]) = true := by decide +kernel
+example : errIs [(1, 2)] 7 .invalidSet = true := by decide +kernel
+example : errIs [(1, 1), (4, 1)] 0 .emptyRange = true := by decide +kernel
+
+end Ex01
 
 end PGA.Estimate
